@@ -135,6 +135,9 @@ def run_chunk(chunk, tier, seed):
                 for ffp in (False, True):
                     for vo in _vorders(n, tier):
                         _do(acc, {"types": types, "seed": seed, "edges": ms, "fixed": list(fixed), "ffp": ffp, "vorder": vo, "eorder": None, "ids": None})
+                    if len(set(ms)) < len(ms):
+                        # the repeated edge is ONE object listed twice
+                        _do(acc, {"types": types, "seed": seed, "edges": ms, "fixed": list(fixed), "ffp": ffp, "vorder": list(range(n)), "eorder": None, "ids": None, "same_object": True})
         elif sub == "B":
             if len(ms) < 2:
                 continue
@@ -318,6 +321,8 @@ def _eval_iters(case, spec, g, verts, edges, fixed_eff):
 
 def _eval_inner(case):
     spec = spec_of(case)
+    if case.get("same_object"):
+        spec["repeat_objects"] = True
     if case.get("shared_pose_object"):
         p0 = list(spec["vertices"][0]["pose"])
         for v in spec["vertices"]:
